@@ -6,6 +6,7 @@ import (
 	"net"
 	"net/http"
 	"net/url"
+	"time"
 )
 
 // C10, client part — the real ClientConn (Do bookkeeping, onResponse,
@@ -70,6 +71,12 @@ func verifC10Client(nreq, steps int, useDo bool) {
 	cc := &ClientConn{Engine: e, conn: conn}
 	// after a lost connection ClientConn dials again; here that always fails
 	cc.Dial = func(network, addr string) (net.Conn, error) { return nil, errors.New("verif: dial refused") }
+	// with a timeout configured, every look at the (virtual, solver-driven)
+	// clock may find the next request overdue: the client then fails all
+	// pending requests and drops the connection
+	if useDo { // (the bookkeeping-only variant has no request times and no re-dial)
+		cc.Timeout = []time.Duration{0, time.Second}[verifChoose("client_timeout", 2)]
+	}
 	proc := NewClientProcessor(cc, cc.onResponse)
 	p := NewParser(conn, e, proc, true, func(f func()) bool { f(); return true })
 	p.OnClose(func(p *Parser, err error) { cc.CloseWithError(err) })
@@ -164,6 +171,9 @@ func verifC10Client(nreq, steps int, useDo bool) {
 			closed = true
 			p.CloseAndClean(errClose)
 		}
+		if cc.conn == nil {
+			closed = true // the client gave the connection up itself (timeout, failed write)
+		}
 	}
 	if !closed {
 		p.CloseAndClean(errClose)
@@ -177,8 +187,9 @@ func verifC10Client(nreq, steps int, useDo bool) {
 		} else {
 			verifAssertD(l.gotErr[i] != nil, "client-callback-response-xor-error", "")
 		}
-		if answeredOpen[i] {
-			// the answer arrived on the open connection of a sent request
+		if answeredOpen[i] && cc.Timeout == 0 {
+			// the answer arrived on the open connection of a sent request (with a
+			// timeout configured the client may have given the request up before)
 			verifAssertD(l.gotRes[i], "delivered-response-reaches-its-callback", "")
 			verifReach("response-delivered")
 		}
